@@ -75,6 +75,7 @@ type JitterBuffer struct {
 	state         State
 	stats         Stats
 	listeners     map[Event][]EventListener
+	pending       []Event // events raised while the mutex is held, delivered by unlockAndEmit
 	mutex         sync.Mutex
 }
 
@@ -155,7 +156,7 @@ func (jb *JitterBuffer) updateStats(lastPktSeqNo uint16) {
 // take this in to account and pass a copy of the packet they wish to buffer.
 func (jb *JitterBuffer) Push(packet *rtp.Packet) {
 	jb.mutex.Lock()
-	defer jb.mutex.Unlock()
+	defer jb.unlockAndEmit()
 
 	if jb.packets.Length() == 0 {
 		jb.emit(StartBuffering)
@@ -175,9 +176,24 @@ func (jb *JitterBuffer) Push(packet *rtp.Packet) {
 	jb.updateState()
 }
 
+// emit records an event; the mutex is held. The listeners are called by
+// unlockAndEmit once the mutex has been released.
 func (jb *JitterBuffer) emit(event Event) {
-	for _, l := range jb.listeners[event] {
-		l(event, jb)
+	jb.pending = append(jb.pending, event)
+}
+
+// unlockAndEmit releases the mutex and then calls the listeners of the events
+// raised while it was held. A listener is handed the buffer and may call its
+// methods (PlayoutHead, Peek, ...), so it must not run under the mutex.
+func (jb *JitterBuffer) unlockAndEmit() {
+	events := jb.pending
+	jb.pending = nil
+	jb.mutex.Unlock()
+
+	for _, event := range events {
+		for _, l := range jb.listeners[event] {
+			l(event, jb)
+		}
 	}
 }
 
@@ -213,7 +229,7 @@ func (jb *JitterBuffer) Peek(playoutHead bool) (*rtp.Packet, error) {
 // Pop an RTP packet from the jitter buffer at the current playout head.
 func (jb *JitterBuffer) Pop() (*rtp.Packet, error) {
 	jb.mutex.Lock()
-	defer jb.mutex.Unlock()
+	defer jb.unlockAndEmit()
 	if jb.state != Emitting {
 		return nil, ErrPopWhileBuffering
 	}
@@ -233,7 +249,7 @@ func (jb *JitterBuffer) Pop() (*rtp.Packet, error) {
 // PopAtSequence will pop an RTP packet from the jitter buffer at the specified Sequence.
 func (jb *JitterBuffer) PopAtSequence(sq uint16) (*rtp.Packet, error) {
 	jb.mutex.Lock()
-	defer jb.mutex.Unlock()
+	defer jb.unlockAndEmit()
 	if jb.state != Emitting {
 		return nil, ErrPopWhileBuffering
 	}
@@ -267,7 +283,7 @@ func (jb *JitterBuffer) PeekAtSequence(sq uint16) (*rtp.Packet, error) {
 // Call this method repeatedly to drain the buffer at the timestamp.
 func (jb *JitterBuffer) PopAtTimestamp(ts uint32) (*rtp.Packet, error) {
 	jb.mutex.Lock()
-	defer jb.mutex.Unlock()
+	defer jb.unlockAndEmit()
 	if jb.state != Emitting {
 		return nil, ErrPopWhileBuffering
 	}
